@@ -27,6 +27,8 @@ type Options struct {
 	Ignores   bool // sprinkle @ignore comments
 	TestFiles bool // add _test.go files (in-package and external) and excluded-token files
 	NearMiss  bool // salt with near-miss comments
+	// NoAnnotations: no declaration carries a real annotation (C09); near-misses only
+	NoAnnotations bool
 	// Root is the directory (and import-path element) of this program inside the module "exp"
 	Root string
 }
@@ -76,6 +78,7 @@ type block struct {
 
 type generator struct {
 	r    *rng.R
+	fr   *rng.R // file assignment only (so that extra blocks do not perturb the main stream)
 	lr   *rng.R
 	o    Options
 	tag  int
@@ -101,7 +104,7 @@ func (g *generator) ignoreComment() string {
 	return "// @ignore " + rng.Pick(g.r, codeLists)
 }
 
-var nearMisses = []string{"// NOTE: the old line read: // @testonly (removed)", "// was: // @immutable", "// x // @packageonly svc","// see @immutable for details", "// @Immutable", "// @immutablex", "/* @immutable */", "// TODO @constructor New", "//@testonlyish", "// @ packageonly", "// not @mutable", "// @IGNORE IMM01", "// @ignoreIMM01", "// x // @testonly"}
+var nearMisses = []string{"// NOTE: the old line read: // @testonly (removed)", "// was: // @immutable", "// x // @packageonly svc", "// see @immutable for details", "// @Immutable", "// @immutablex", "/* @immutable */", "// TODO @constructor New", "//@testonlyish", "// @ packageonly", "// not @mutable", "// @IGNORE IMM01", "// @ignoreIMM01", "// x // @testonly"}
 
 func (g *generator) local(base string) string {
 	if g.o.RenameLocals {
@@ -141,7 +144,7 @@ func allowText(list []string) string {
 
 // Generate builds one program from seed under the given options.
 func Generate(seed uint64, o Options) *Module {
-	g := &generator{r: rng.New(seed), lr: rng.New(seed ^ (o.LayoutSeed+1)*0x9E3779B97F4A7C15), o: o, tags: map[string]int{}}
+	g := &generator{r: rng.New(seed), fr: rng.New(seed ^ 0xABCDEF), lr: rng.New(seed ^ (o.LayoutSeed+1)*0x9E3779B97F4A7C15), o: o, tags: map[string]int{}}
 	r := g.r
 	m := &Module{Files: map[string]string{}, Tags: g.tags}
 	m.Files["go.mod"] = "module exp\n\ngo 1.25\n"
@@ -210,21 +213,21 @@ func Generate(seed uint64, o Options) *Module {
 			if r.Chance(1, 6) {
 				t.kind = 1
 			}
-			t.immutable = r.Chance(3, 5)
-			if r.Chance(1, 2) {
+			t.immutable = r.Chance(3, 5) && !o.NoAnnotations
+			if r.Chance(1, 2) && !o.NoAnnotations {
 				t.ctors = []string{"New" + t.name}
 				if r.Chance(1, 3) {
 					t.ctors = append(t.ctors, "Make"+t.name)
 				}
 			}
-			t.testonly = r.Chance(1, 4)
-			if r.Chance(1, 3) {
+			t.testonly = r.Chance(1, 4) && !o.NoAnnotations
+			if r.Chance(1, 3) && !o.NoAnnotations {
 				t.hasPkgOnly = true
 				t.pkgonly = g.allowList(users)
 			}
 			t.mutable = t.immutable && t.kind == 0 && r.Chance(1, 2)
-			t.tmeth = r.Chance(1, 3)
-			if r.Chance(1, 3) {
+			t.tmeth = r.Chance(1, 3) && !o.NoAnnotations
+			if r.Chance(1, 3) && !o.NoAnnotations {
 				t.pmeth = true
 				t.pmethAllow = g.allowList(users)
 			}
@@ -233,8 +236,8 @@ func Generate(seed uint64, o Options) *Module {
 		nF := 1 + r.Intn(2)
 		for i := 0; i < nF; i++ {
 			f := &gfunc{name: fmt.Sprintf("Helper%d", i)}
-			f.testonly = r.Chance(1, 2)
-			if r.Chance(1, 2) {
+			f.testonly = r.Chance(1, 2) && !o.NoAnnotations
+			if r.Chance(1, 2) && !o.NoAnnotations {
 				f.hasPkgOnly = true
 				f.pkgonly = g.allowList(users)
 			}
@@ -460,7 +463,7 @@ func (g *generator) renderPkg(m *Module, p *gpkg, decls []*gpkg) {
 	nFiles := 1 + r.Intn(3)
 	var blocks []block
 	add := func(text string) {
-		blocks = append(blocks, block{text: text, file: r.Intn(nFiles)})
+		blocks = append(blocks, block{text: text, file: g.fr.Intn(nFiles)})
 	}
 	// types visible from p: own + imported
 	var visible []*gtype
@@ -477,6 +480,11 @@ func (g *generator) renderPkg(m *Module, p *gpkg, decls []*gpkg) {
 			}
 			add("type A" + aliasKey(t) + " = " + direct)
 		}
+	}
+	// every visible type is referenced at least once in every rendering (so that alias declarations of the
+	// spelling variants do not introduce a first reference the base rendering lacks)
+	for i, t := range visible {
+		add("var _ *" + g.typeRef(p, t, 2*i+1) + " " + g.nextTag())
 	}
 	// declarations of own types, constructors, methods
 	var grouped []string
@@ -618,7 +626,7 @@ func (g *generator) renderPkg(m *Module, p *gpkg, decls []*gpkg) {
 		add(fdoc + "func " + name + "(" + strings.Join(params, ", ") + ") {\n" + indent(b) + "}")
 	}
 	// a @testonly helper function whose body uses @testonly items (must stay silent)
-	if len(visible) > 0 && r.Chance(1, 2) {
+	if len(visible) > 0 && r.Chance(1, 2) && !g.o.NoAnnotations {
 		t := rng.Pick(r, visible)
 		vars := []scopeVar{{"v", t, true}}
 		add("// @testonly\nfunc OnlyInTests(v *" + g.typeRef(p, t, 0) + ") {\n" + indent(g.body(p, vars, extraFor(), 3)) + "}")
@@ -721,6 +729,32 @@ func (g *generator) renderPkg(m *Module, p *gpkg, decls []*gpkg) {
 		}
 		sb.WriteString(body)
 		m.Files[fmt.Sprintf("%s/f%d.go", dir, fi)] = sb.String()
+	}
+
+	// ---- a file whose FIRST use of a foreign type sits in an @ignore scope, followed by an unsuppressed use
+	// (once-per-file codes must move to the next unsuppressed use)
+	if g.o.Ignores && len(p.imports) > 0 && len(p.imports[0].types) > 0 {
+		im := p.imports[0]
+		t := im.types[r.Intn(len(im.types))]
+		ref := g.typeRef(p, t, -1)
+		imp := fmt.Sprintf("import %q\n", im.path)
+		if p.alias[im] != im.name {
+			imp = fmt.Sprintf("import %s %q\n", p.alias[im], im.path)
+		}
+		if g.o.Spelling == 1 || g.o.Spelling == 2 {
+			imp = "" // the alias lives in the regular files
+		}
+		code := rng.Pick(r, []string{"PKGO01", "TONL01", "PKGO01, TONL01", "PKGO", "TONL", "ALL", "IMM01"})
+		var b []string
+		switch r.Intn(3) {
+		case 0:
+			b = []string{"var a *" + ref + " " + g.nextTag() + " // @ignore " + code, "_ = a", "var b *" + ref + " " + g.nextTag(), "_ = b"}
+		case 1:
+			b = []string{"// @ignore " + code, "var a *" + ref + " " + g.nextTag(), "_ = a", "var b *" + ref + " " + g.nextTag(), "_ = b"}
+		default:
+			b = []string{"var a *" + ref + " " + g.nextTag(), "_ = a", "var b *" + ref + " " + g.nextTag() + " // @ignore " + code, "_ = b"}
+		}
+		m.Files[dir+"/ign_first.go"] = "package " + p.name + "\n\n" + imp + "\nfunc IgnoredFirstUse() {\n" + indent(b) + "}\n"
 	}
 
 	// ---- test / excluded files (pinned)
